@@ -779,6 +779,43 @@ def run(ctx: Ctx):
     ctx.cov["largest_healthy_errors"] = [{"grid": g, "lm": list(lm), "abs_error": e} for e, g, lm in worst]
     ctx.cov["B"] = B
     ctx.cov["not_covered_by_kernel"] = {m: sorted(g[2] for g in above if g[0] == m) for m, _, _, _ in c12.METHODS}
+    # ---------------- every construction route: default caching ON, methods interleaved in both orders in one process.
+    # The module-level caches are keyed by degree only; the grid handed out must still be the requested method's shipped data.
+    try:
+        import grid.angular as _ga
+        from props import c12 as _c12
+        _tabs, _ = _c12.extract_tables(ctx)
+        _caches = [_ga.LEBEDEV_CACHE, _ga.SPHERICAL_CACHE, _ga.MAX_DET_CACHE, _ga.AHRENS_BEYLKIN_CACHE]
+        for _c in _caches:
+            _c.clear()
+        _first = None
+        _n = 0
+        for _order in (_c12.METHODS, _c12.METHODS[::-1]):
+            for _meth, _P, _, _ddir in _order:
+                _t = _tabs[f"{_P}_DEGREES"]
+                for _d in [d_ for d_ in sorted(_t) if _t[d_] <= (1300 if ctx.quick else 6000)]:
+                    import warnings as _w
+                    with _w.catch_warnings():
+                        _w.simplefilter("ignore")
+                        _g = _ga.AngularGrid(degree=_d, method=_meth)
+                    with np.load(SRC / "data" / _ddir / f"{_meth}_{_d}_{_t[_d]}.npz") as _data:
+                        _ok = (_g.size == _t[_d] and len(_g.points) == _t[_d] and np.array_equal(_g.points, _data["points"]))
+                    _n += 1
+                    ctx.case(("cached", _meth, _d, _order is _c12.METHODS))
+                    if not _ok and _first is None:
+                        _first = (_meth, _d, int(_g.size), _t[_d])
+        for _c in _caches:
+            _c.clear()
+        ctx.cov["cached_constructions"] = _n
+        if _first:
+            _meth, _d, _got, _exp = _first
+            ctx.fail("corr_grid_cached", f"built-cached:{_meth}:{_d}", _got,
+                     f"with caching on and grids of other methods built before, AngularGrid(degree={_d}, method='{_meth}') has {_got} points "
+                     f"/ not the shipped points; advertised size {_exp}",
+                     {"reproduce": f"clear the caches; build every supported degree of every method (then in reverse method order); AngularGrid(degree={_d}, method='{_meth}')"})
+    except Exception as _e:  # noqa: BLE001
+        ctx.fail("corr_grid_cached", "built-cached:crash", type(_e).__name__, f"cached construction sweep crashed: {_e}", found_input=False)
+
     ctx.cov["rule"] = (f"every constructible grid (table entry) with N*(d+1)^2 <= B={B} is checked exactly inside the Coq kernel "
                        "(all points, the weight sum and all (l,m), 1<=l<=d, |m|<=l) and tied to AngularGrid(...) by exact correspondence; "
                        "distinct = grids (kernel) + grids (correspondence) + grids (numeric oracle); grids above B are covered by the numeric "
